@@ -1,7 +1,7 @@
 (* C02 - a proof binds to its statement (the decision logic of it).
    Only statements, [exact], and Print Assumptions. *)
 From Coq Require Import ZArith List Bool Arith Lia.
-From MV Require Import Gen.OptGen Air.ProofParams.
+From MV Require Import Gen.OptGen Air.ProofParams Air.PubInputs.
 Import ListNotations.
 Open Scope Z_scope.
 
@@ -16,3 +16,22 @@ Print Assumptions c02_relabel_rejected.
 Theorem c02_only_listed_accepted : forall h o, accepts h o = true -> In o (acceptable h).
 Proof. exact only_listed_accepted. Qed.
 Print Assumptions c02_only_listed_accepted.
+
+(* the element sequence that seeds the Fiat-Shamir coin (program hash, kernel procedure hashes, stack
+   inputs, stack outputs, overflow addresses, no length prefixes): given the three lengths it
+   determines the statement ... *)
+Theorem c02_seed_framing : forall h h' k k' ins ins' outs outs' addrs addrs',
+  length h = 4%nat -> length h' = 4%nat ->
+  Forall (fun w => length w = 4%nat) k -> Forall (fun w => length w = 4%nat) k' ->
+  length k = length k' -> length ins = length ins' -> length outs = length outs' ->
+  pub_elements h k ins outs addrs = pub_elements h' k' ins' outs' addrs' ->
+  h = h' /\ k = k' /\ ins = ins' /\ outs = outs' /\ addrs = addrs'.
+Proof. exact pub_elements_framed. Qed.
+Print Assumptions c02_seed_framing.
+(* ... and without them it does not: a kernel procedure and four stack inputs give the same elements,
+   so the binding rests on the boundary assertions, not on the seed alone *)
+Theorem c02_seed_collision_witness :
+  exists h k ins outs addrs k' ins',
+    (k, ins) <> (k', ins') /\ pub_elements h k ins outs addrs = pub_elements h k' ins' outs addrs.
+Proof. exact pub_elements_not_framed. Qed.
+Print Assumptions c02_seed_collision_witness.
